@@ -354,6 +354,117 @@ Definition prop_obs (max : nat) (fs : fibers) (o : obs) : bool :=
   end.
 
 (* ------------------------------------------------------------------------------------ *)
+(* Layer B: execution.rs run_request_no_side_effects — the idempotence gate, the shared
+   plan, the target loop of one fiber (run_request_speculative_fiber)                      *)
+
+Record config := mkConfig {
+  is_idempotent : bool;
+  (* metrics_and_speculative_policy : Option<(&Arc<Metrics>, Option<&dyn Policy>)>; the policy
+     is represented by its max_retry_count *)
+  metrics_and_policy : option (option nat)
+}.
+
+(* `Some((metrics, Some(speculative))) if self.is_idempotent => execute(..)`, `_ => one fiber` *)
+Definition gate (c : config) : option nat :=
+  match metrics_and_policy c with
+  | Some (Some max) => if is_idempotent c then Some max else None
+  | _ => None
+  end.
+
+Record bstate := mkB {
+  speculative : bool;             (* which arm of the match is running *)
+  core : state;                   (* the select loop; in the other arm just "fiber 0, no timer" *)
+  plan : list N;                  (* SharedPlan: what the iterator behind the mutex has left *)
+  draws : list (nat * option N)   (* ghost: every next() call so far, latest first: (fiber, item) *)
+}.
+
+Definition single_init : state := mkState 0 [0] Fired None 1 None.
+
+Definition binit (c : config) (pl : list N) : bstate :=
+  match gate c with
+  | Some max => mkB true (init max) pl []
+  | None => mkB false single_init pl []
+  end.
+
+Inductive blabel :=
+| BTimer
+| BDraw (f : nat)                         (* fiber f calls next() on the plan (one critical section) *)
+| BComplete (f : nat) (o : fiber_out).
+
+Definition saw_end (f : nat) (ds : list (nat * option N)) : bool :=
+  existsb (fun d => (fst d =? f) && match snd d with None => true | Some _ => false end) ds.
+Definition drew_some (f : nat) (ds : list (nat * option N)) : bool :=
+  existsb (fun d => (fst d =? f) && match snd d with Some _ => true | None => false end) ds.
+
+(* the non-speculative arm: `fiber.await.unwrap_or(Err(RequestError::EmptyPlan))` *)
+Definition single_complete (s : state) (f : nat) (o : fiber_out) : option state :=
+  match returned s with
+  | Some _ => None
+  | None =>
+      if mem f (running s)
+      then Some (mkState (retries s) (remove f (running s)) (sleep s) (last_error s) (started s)
+                         (Some (match o with Some r => r | None => Err EmptyPlan end)))
+      else None
+  end.
+
+(* A fiber is `for target in plan { attempts on target }; last_error.map(Err)`:
+   - it calls next() only while it runs and has not yet seen the end of the plan;
+   - it yields None only if its first next() returned None (last_error is still None);
+   - it yields Some(_) only after at least one target was handed to it. *)
+Definition bstep (b : bstate) (l : blabel) : option bstate :=
+  match l with
+  | BTimer =>
+      if speculative b
+      then option_map (fun s' => mkB true s' (plan b) (draws b)) (step (core b) Timer)
+      else None
+  | BDraw f =>
+      match returned (core b) with
+      | Some _ => None
+      | None =>
+          if mem f (running (core b)) && negb (saw_end f (draws b)) then
+            match plan b with
+            | t :: rest => Some (mkB (speculative b) (core b) rest ((f, Some t) :: draws b))
+            | [] => Some (mkB (speculative b) (core b) [] ((f, None) :: draws b))
+            end
+          else None
+      end
+  | BComplete f o =>
+      if match o with
+         | None => saw_end f (draws b) && negb (drew_some f (draws b))
+         | Some _ => drew_some f (draws b)
+         end
+      then option_map (fun s' => mkB (speculative b) s' (plan b) (draws b))
+             (if speculative b then step (core b) (Complete f o) else single_complete (core b) f o)
+      else None
+  end.
+
+Fixpoint brun (b : bstate) (ls : list blabel) : option bstate :=
+  match ls with
+  | [] => Some b
+  | l :: r => match bstep b l with Some b' => brun b' r | None => None end
+  end.
+
+(* the schedule of the select loop inside a Layer-B schedule *)
+Definition proj (ls : list blabel) : list label :=
+  flat_map (fun l => match l with
+                     | BTimer => [Timer] | BDraw _ => [] | BComplete f o => [Complete f o]
+                     end) ls.
+
+(* targets handed out so far (latest first) *)
+Definition drawn (ds : list (nat * option N)) : list N :=
+  flat_map (fun d => match snd d with Some t => [t] | None => [] end) ds.
+
+(* the target a fiber is working on = the latest item it was handed *)
+Definition latest_target (f : nat) (ds : list (nat * option N)) : list N :=
+  match find (fun d => fst d =? f) ds with
+  | Some (_, Some t) => [t]
+  | _ => []
+  end.
+(* targets on which the request may be in flight right now *)
+Definition in_flight (b : bstate) : list N :=
+  flat_map (fun f => latest_target f (draws b)) (running (core b)).
+
+(* ------------------------------------------------------------------------------------ *)
 (* Names of the error variants for the text protocol of the correspondence check          *)
 
 Definition all_db_errors : list db_error :=
